@@ -17,6 +17,7 @@
 From Coq Require Import String NArith ZArith List.
 From V Require Import Base.Bytes TLS.TlsModel CT.Rfc6962Spec CT.CtFuncs X509.PrecertModel
   CTFE.AddChainModel CTFE.AddChainSpec CTFE.AddChainFinding CTFE.AddChainTheorems.
+From V Require Import Base.GoInt gen.AddChain CTFE.AddChainGenTie.
 Import ListNotations.
 Local Open Scope N_scope.
 
@@ -152,3 +153,11 @@ Example history_example :
   /\ issuance_consistent toyH ([sub_a] ++ [sub_a_again])
   /\ client_entry toyH sub_a w_entry_a /\ client_entry toyH sub_a_again w_entry_a.
 Proof. exact (conj w_history (conj w_consistent w_client_a)). Qed.
+
+(* the timestamp of an add-chain / add-pre-chain request as handlers.go computes it today (translated on every
+   run: uint64(UnixNano / millisPerNano) with the constant of structures.go) is the model's time_millis, for
+   every int64 clock reading - negative ones included (truncation towards zero, then reduction mod 2^64) *)
+Theorem time_millis_as_in_source : forall now,
+  (min_i64 <= now <= max_i64)%Z -> time_millis_gen now = Z.of_N (time_millis now).
+Proof. exact time_millis_meaning. Qed.
+Print Assumptions time_millis_as_in_source.
